@@ -74,6 +74,7 @@ type Checker struct {
 	enc           encMemo                   // last enc* op (C14 round trip)
 	activation    uint64                    // activation epoch of the world line (C18)
 	lastEpoch     map[int]uint64            // last confirmed epoch per shard (absent = none yet)
+	regEpoch      *uint64                   // `notifier <epoch>`: epoch confirmed to every handler at registration (next worlds)
 	sched         map[int]map[string]uint64 // gas schedule in force per shard (absent = unknown to the ghost)
 	MaxFindings   int                       // recording stops after this many (0 = 10000)
 }
@@ -211,9 +212,23 @@ func (c *Checker) After(line string, obs string) {
 	case "#":
 		c.annotate(strings.TrimRight(line, "\r\n"))
 		return
+	case "notifier":
+		if obs == "notifier ok" && len(args) == 1 {
+			if args[0] == "off" {
+				c.regEpoch = nil
+			} else if e, err := strconv.ParseUint(args[0], 10, 64); err == nil {
+				c.regEpoch = &e
+			}
+		}
+		return
 	case "world":
 		if obs == "world ok" || obs == "world err" {
 			c.resetGhost()
+			if c.regEpoch != nil && obs == "world ok" {
+				for s := 0; s < c.w.NumShards(); s++ {
+					c.lastEpoch[s] = *c.regEpoch // every handler was told this epoch when it registered
+				}
+			}
 			if len(args) == 5 {
 				c.activation, _ = strconv.ParseUint(args[2], 10, 64)
 				if obs == "world ok" {
